@@ -139,7 +139,9 @@ def gen_spec(rng, scale_kind=None, n=None, direction=None, c08=False, text_class
         opts["layerGap"] = rng.choice([1, 5, 30, 60, 60.5])
     if rng.random() < 0.4:
         opts["labelPadding"] = rng.choice([{"left": 0, "right": 0, "top": 1, "bottom": 1}, {"left": 5, "right": 1, "top": 2, "bottom": 7},
-                                           {"left": 2.5, "right": 2, "top": 3, "bottom": 2}])
+                                           {"left": 2.5, "right": 2, "top": 3, "bottom": 2}, {"left": 9, "right": 9, "top": 3, "bottom": 2},
+                                           {"left": 0, "right": 1, "top": 12, "bottom": 9},
+                                           {k: rng.choice([0, 1, 2, 3, 5, 9, 12]) for k in ("left", "right", "top", "bottom")}])
     lab = {}
     r = rng.random()
     if r < 0.6:
